@@ -916,7 +916,11 @@ def replay_pipeline(prop, path, payload):
         got = (h.stdout.splitlines() or ["(no output: the crate did not finish)"])[0].strip()
         surrogate = ": " in exp.split("F:")[0]
         want = exp[exp.index("F:"):] if "F:" in exp else exp
-        if not surrogate:
+        if exp.startswith("net of component models run to rest"):
+            surrogate = False
+            m = sh([DRIVER, "netpipe"], inp=pl + "\n")
+            want = (m.stdout.splitlines() or [want])[0].strip()
+        elif not surrogate:
             m = sh([DRIVER, "pipe"], inp=pl + "\n")
             want = (m.stdout.splitlines() or [want])[0].strip()
         strip = (lambda t: re.sub(r" nexts=\d+", "", t)) if surrogate else (lambda t: t)
@@ -1051,6 +1055,21 @@ def c06_check(prop, tier, seed, t0):
         model += m
         real += h
     bad = [(p, m, h) for p, m, h in zip(pipes, model, real) if m.strip() != h.strip()]
+    # the net of component models that Liveness.pipeline_completes is about (PipeNet.net_pipe_run, extracted), run
+    # to rest on every generated pipeline of unary stages over a finite input, against the crate
+    def network(ch):
+        if not ch:
+            return []
+        m = sh([DRIVER, "netpipe"], inp="\n".join(ch) + "\n")
+        if m.returncode != 0:
+            raise Fail("net pipeline run failed: " + m.stderr[-1000:])
+        return m.stdout.splitlines()[:len(ch)]
+    netmodel = []
+    for part in parallel_map(network, chunked(pipes, 16)):
+        netmodel += part
+    nbad = [(p, m, h) for p, m, h in zip(pipes, netmodel, real) if m.strip() != "-" and m.strip() != h.strip()]
+    n_net = sum(1 for m in netmodel if m.strip() != "-")
+    bad += [(p, "net of component models run to rest (Liveness.v): " + m, h) for p, m, h in nbad]
     # the composition theorems (Chain.v, Tree.v, TreeFunctional.v) speak about nets of component models: random
     # operator trees run as such nets and on the crate under scripted sinks; the sink's view must be equal
     rc = sh([DRIVER, "genchain", str(seed + 5), str(n // 5)])
@@ -1098,6 +1117,7 @@ def c06_check(prop, tier, seed, t0):
         pipeline_depth_histogram=depth_hist,
         operator_trees_run_as_nets_of_component_models=len(trees), net_vs_crate_mismatches=len(tbad),
         big_count_pipelines=nbig, shared_source_pipelines=nshared,
+        pipelines_run_as_nets_of_component_models_to_rest=n_net, net_to_rest_vs_crate_mismatches=len(nbad),
         samples=[dict(pipeline=p, crate=h) for p, h in list(zip(pipes, real))[:2] + list(zip(pipes, real))[-2:]],
     )
     write_evidence(prop, tier, seed, t0, cov, len(bad),
